@@ -348,6 +348,121 @@ def fold_static(tree, class_node=None):
     return t
 
 
+def fold_constant_tests(fn):
+    """in place; True if something changed. What inlining a general helper into a caller that passes constants leaves
+    behind: `<lambda / literal> is not None` is True and `None is not None` False, `isinstance(x, ())` is False, `True and
+    t` is t, `False and t` False (and the duals), `if True:` / `if False:` keep one arm, statements after a return that
+    has become unconditional are dropped."""
+    changed = [False]
+
+    def truth(e):
+        if isinstance(e, ast.Constant) and isinstance(e.value, bool):
+            return e.value
+        return None
+
+    def never_none(e):
+        return isinstance(e, (ast.Lambda, ast.Dict, ast.List, ast.Tuple, ast.Set, ast.JoinedStr, ast.ListComp, ast.DictComp)) \
+            or (isinstance(e, ast.Constant) and e.value is not None)
+
+    class T(ast.NodeTransformer):
+        def visit_Compare(self, node):
+            self.generic_visit(node)
+            if len(node.ops) == 1 and isinstance(node.ops[0], (ast.Is, ast.IsNot)):
+                l, r = node.left, node.comparators[0]
+                for a, b in ((l, r), (r, l)):
+                    if isinstance(b, ast.Constant) and b.value is None:
+                        if never_none(a):
+                            changed[0] = True
+                            return ast.copy_location(ast.Constant(value=isinstance(node.ops[0], ast.IsNot)), node)
+                        if isinstance(a, ast.Constant) and a.value is None:
+                            changed[0] = True
+                            return ast.copy_location(ast.Constant(value=isinstance(node.ops[0], ast.Is)), node)
+            return node
+
+        def visit_Call(self, node):
+            self.generic_visit(node)
+            if isinstance(node.func, ast.Name) and node.func.id == "isinstance" and len(node.args) == 2 and not node.keywords \
+                    and isinstance(node.args[1], ast.Tuple) and not node.args[1].elts:
+                changed[0] = True
+                return ast.copy_location(ast.Constant(value=False), node)
+            return node
+
+        def visit_UnaryOp(self, node):
+            self.generic_visit(node)
+            if isinstance(node.op, ast.Not) and truth(node.operand) is not None:
+                changed[0] = True
+                return ast.copy_location(ast.Constant(value=not truth(node.operand)), node)
+            return node
+
+        def visit_BoolOp(self, node):
+            self.generic_visit(node)
+            is_and = isinstance(node.op, ast.And)
+            keep = []
+            for i, v in enumerate(node.values):
+                t = truth(v)
+                if t is None:
+                    keep.append(v)
+                    continue
+                if t != is_and:
+                    # False in an `and` / True in an `or`: decides the whole test when nothing before it has an effect
+                    if not keep:
+                        changed[0] = True
+                        return ast.copy_location(ast.Constant(value=t), node)
+                    keep.append(v)
+                    break
+                changed[0] = True      # True in an `and` / False in an `or`: neutral (as a test)
+            if not keep:
+                return ast.copy_location(ast.Constant(value=is_and), node)
+            if len(keep) == 1:
+                return keep[0]
+            node.values = keep
+            return node
+
+    def only_tests(fn_):
+        # BoolOp folding above reads the operands as tests (truthiness): applied to `if` / `while` tests only
+        class Tests(ast.NodeTransformer):
+            def visit_If(self, node):
+                node.test = T().visit(node.test)
+                self.generic_visit(node)
+                return node
+
+            def visit_IfExp(self, node):
+                node.test = T().visit(node.test)
+                self.generic_visit(node)
+                return node
+        Tests().visit(fn_)
+    only_tests(fn)
+
+    def prune(stmts):
+        out = []
+        for st in stmts:
+            for fld in ("body", "orelse", "finalbody"):
+                sub = getattr(st, fld, None)
+                if isinstance(sub, list) and sub and isinstance(sub[0], ast.stmt) and not isinstance(
+                        st, (ast.FunctionDef, ast.AsyncFunctionDef, ast.ClassDef)):
+                    setattr(st, fld, prune(sub) or ([ast.copy_location(ast.Pass(), st)] if fld == "body" else []))
+            if isinstance(st, ast.If) and truth(st.test) is not None:
+                changed[0] = True
+                out += st.body if truth(st.test) else st.orelse
+            else:
+                out.append(st)
+            if out and isinstance(out[-1], (ast.Return, ast.Raise)) and st is not stmts[-1]:
+                changed[0] = True
+                break
+        return [x for x in out if not (isinstance(x, ast.Pass) and len(out) > 1)]
+    fn.body = prune(fn.body) or [ast.Pass()]
+
+    class X(ast.NodeTransformer):
+        def visit_IfExp(self, node):
+            self.generic_visit(node)
+            if truth(node.test) is not None:
+                changed[0] = True
+                return node.body if truth(node.test) else node.orelse
+            return node
+    X().visit(fn)
+    return changed[0]
+
+
 def _guards_to_ifs(body):
     """helper body in which leading guards `if c: return` are rewritten as `if not c: <rest>` (so that it can be spliced
     into a caller); None if a bare `return` remains anywhere else"""
